@@ -25,10 +25,43 @@ RULE = ("same fault x injection-point enumeration as C05 incl. resolver/connect 
         "keeps (op, t_call, t_return, outcome, exception chain) in virtual time. Oracle: (1) every call returns within its documented bound and "
         "none is pending at the 400 s horizon or when the world is idle forever; (2) every raised exception is an APIConnectionError (CancelledError "
         "only for the task the harness cancelled); (3) the first report_fatal_error of a connection has the class/marker the fault table predicts and "
-        "every waiter failing afterwards carries that first cause. Distinct = trace signature")
+        "every waiter failing afterwards carries that first cause; same-turn pairs of a network close cause and a user action (both orders), stalled-connect "
+        "histories (disconnect during a stuck hello, its 5 s wait expiring, optional cancel, late hello, then the link dies), duplicate answers in one chunk, "
+        "rejection worlds (wrong password / name / key / version) x user actions, rejection + hang-up in one chunk. Distinct = trace signature")
+
+
+def rejection_then_hangup(ctx: Ctx) -> None:
+    """First cause wins in the connect phase too: the device REJECTS the client (wrong password / other name / incompatible version) and hangs up
+    right behind that answer, in the same chunk (DisconnectRequest or garbage) - connect() must report the rejection, not what followed it."""
+    import itertools
+
+    from aioesphomeapi.core import APIConnectionError, BadNameAPIError, InvalidAuthAPIError
+    from vf.props import c06
+
+    res = ctx.res
+    idx = 0
+    for framing, reject, pk in itertools.product(("plain", "noise"), ("password", "name", "version"), ("one-chunk+peer-disconnect", "one-chunk+garbage")):
+        idx += 1
+        if not ctx.mine(idx):
+            continue
+        row = {"major": 3 if reject == "version" else 1, "minor": 10, "api_name": "other" if reject == "name" else "equal", "noise_name": "equal" if framing == "noise" else "absent",
+               "framing": framing, "invalid_password": reject == "password", "login": True, "expected_set": True, "packaging": pk, "password": "pw"}
+        o = c06.run_case(row)
+        res.evaluations += 1
+        res.count("baseline/rejection-then-hangup")
+        res.count("oracle_evaluations")
+        res.sigs.add(f"rej/{framing}/{reject}/{pk}")
+        e = o["exc"]
+        ok = (reject == "password" and isinstance(e, InvalidAuthAPIError)) or (reject == "name" and isinstance(e, BadNameAPIError)) or \
+            (reject == "version" and type(e) is APIConnectionError and "ncompatible" in str(e))
+        res.count(f"observed/c09/rejection-then-hangup/{type(e).__name__ if e else o['outcome']}")
+        if not ok:
+            res.violation(f"C09/first-cause-masked/connect-rejection/{reject}", f"{framing}: device rejected the client ({reject}) and hung up behind the answer ({pk}); "
+                          f"connect() ended {o['outcome']} {e!r}", {"spec": None, "row": row}, trace=o["trace"])
 
 
 def shard(ctx: Ctx) -> None:
+    rejection_then_hangup(ctx)
     sweep.standard_sweep(ctx, PROP)
     sweep.same_turn_pairs_sweep(ctx, PROP)
     sweep.stalled_connect_sweep(ctx, PROP)
